@@ -928,7 +928,10 @@ def log_call(
     if include_args is not None:
         from inspect import signature
 
-        sig = signature(wrapped_function)
+        # The arguments are bound to the parameters of wrapped_function
+        # itself (see getcallargs() below), not to those of a function it may
+        # in turn wrap:
+        sig = signature(wrapped_function, follow_wrapped=False)
         if set(include_args) - set(sig.parameters):
             raise ValueError(
                 (
